@@ -37,14 +37,14 @@ pub open spec fn preds_are_edges<T: Eq + PartialOrd + Send + Sync, A: Clone>(g: 
 }
 // every traversal entry of a node of the visiting order S leads to a node of S or to a node still waiting in `q`
 pub open spec fn order_closed_upto<T: Eq + PartialOrd + Send + Sync, A: Clone>(g: Graph<T, A>, S: Seq<usize>, q: Seq<usize>, cur: int, upto: int) -> bool {
-    forall|v: usize, k: int| S.contains(v) && v < g.n() && 0 <= k < g.successors_vec@[v as int]@.len() && (v != cur || k < upto)
-        ==> S.contains((#[trigger] g.successors_vec@[v as int]@[k]).node_index) || q.contains(g.successors_vec@[v as int]@[k].node_index)
+    forall|v: usize, k: int| #[trigger] entry_mark(v, k) && S.contains(v) && v < g.n() && 0 <= k < g.successors_vec@[v as int]@.len() && (v != cur || k < upto)
+        ==> S.contains(g.successors_vec@[v as int]@[k].node_index) || q.contains(g.successors_vec@[v as int]@[k].node_index)
 }
 // the visiting order contains the source and is closed under the traversal rows: it covers every node reachable from the source
 pub open spec fn order_covers_reachable<T: Eq + PartialOrd + Send + Sync, A: Clone>(g: Graph<T, A>, source: usize, S: Seq<usize>) -> bool {
     &&& S.contains(source)
-    &&& forall|v: usize, k: int| S.contains(v) && v < g.n() && 0 <= k < g.successors_vec@[v as int]@.len()
-            ==> S.contains((#[trigger] g.successors_vec@[v as int]@[k]).node_index)
+    &&& forall|v: usize, k: int| #[trigger] entry_mark(v, k) && S.contains(v) && v < g.n() && 0 <= k < g.successors_vec@[v as int]@.len()
+            ==> S.contains(g.successors_vec@[v as int]@[k].node_index)
 }
 pub proof fn lemma_contains_push(s: Seq<usize>, x: usize, y: usize)
     requires s.contains(y) || x == y,
@@ -412,13 +412,16 @@ pub open spec fn in_heap(h: vstd::multiset::Multiset<FringeNode>, w: usize) -> b
     exists|it: FringeNode| #[trigger] h.count(it) > 0 && it.v == w
 }
 // every traversal entry of a node of `done` leads into `done` or to a node still waiting in the heap
+// trigger marker for the closure quantifiers: they are instantiated only at traversal entries named explicitly (a trigger on the
+// row entry itself would chain through in_heap -> citem_ok -> extends -> another row entry and never stop)
+pub open spec fn entry_mark(v: usize, k: int) -> bool { true }
 pub open spec fn succ_closed_upto<T: Eq + PartialOrd + Send + Sync, A: Clone>(g: Graph<T, A>, done: Set<usize>, h: vstd::multiset::Multiset<FringeNode>, cur: int, upto: int) -> bool {
-    forall|v: usize, k: int| done.contains(v) && v < g.n() && 0 <= k < g.successors_vec@[v as int]@.len() && (v != cur || k < upto)
-        ==> done.contains((#[trigger] g.successors_vec@[v as int]@[k]).node_index) || in_heap(h, g.successors_vec@[v as int]@[k].node_index)
+    forall|v: usize, k: int| #[trigger] entry_mark(v, k) && done.contains(v) && v < g.n() && 0 <= k < g.successors_vec@[v as int]@.len() && (v != cur || k < upto)
+        ==> done.contains(g.successors_vec@[v as int]@[k].node_index) || in_heap(h, g.successors_vec@[v as int]@[k].node_index)
 }
 pub open spec fn succ_closed<T: Eq + PartialOrd + Send + Sync, A: Clone>(g: Graph<T, A>, done: Set<usize>) -> bool {
-    forall|v: usize, k: int| done.contains(v) && v < g.n() && 0 <= k < g.successors_vec@[v as int]@.len()
-        ==> done.contains((#[trigger] g.successors_vec@[v as int]@[k]).node_index)
+    forall|v: usize, k: int| #[trigger] entry_mark(v, k) && done.contains(v) && v < g.n() && 0 <= k < g.successors_vec@[v as int]@.len()
+        ==> done.contains(g.successors_vec@[v as int]@[k].node_index)
 }
 // what a single-source kernel reports: `done` is the set of nodes reachable from the source (it contains the source, is
 // closed under the traversal rows, and each of its nodes was assigned the length of a walk from the source: chain_ok);
